@@ -345,6 +345,30 @@ pub fn judge_devfull_alignment(src: Fmt, to: Fmt, pad: usize, acc: &mut Acc) {
     }
 }
 
+/// A zero-length regular file is one empty TOML table: a few bytes of output for JSON / YAML / MessagePack
+/// targets that exist only in the buffer until the flush. stdout on /dev/full: status 1 and a message.
+pub fn judge_devfull_empty_file(name: &'static str, to: Fmt, acc: &mut Acc) {
+    let probe = crate::run::run_slice(b"", if name.ends_with(".toml") { Some(Fmt::Toml) } else { None }, to);
+    if !probe.verdict.is_ok() || probe.out.is_empty() {
+        return;
+    }
+    acc.evals += 1;
+    let sc = Scratch::new();
+    sc.file(name, b"");
+    let out = procmon::run(Run { bin: &procmon::release_bin(), argv: vec!["-t".into(), to.name().into(), name.into()], cwd: sc.path(), stdin: StdinKind::Null, stdout: StdoutKind::DevFull, wall_secs: 60, cpu_secs: 30 });
+    acc.count("dev_full_zero_length_file_runs");
+    if matches!(out.status, Status::Timeout | Status::SpawnError(_)) {
+        acc.inconclusive += 1;
+        return;
+    }
+    let err = String::from_utf8_lossy(&out.stderr);
+    if out.status != Status::Exit(1) || !err.starts_with("xt error") {
+        acc.violation(Violation { sig: format!("/dev/full zero-length file ->{}: {}", to.name(), out.status.show()), case: json!({"devfull_empty_file": true, "name": name, "to": to.name()}), observed: format!("status {}, stderr [{}]", out.status.show(), preview(&out.stderr, 200)), expected: "exit 1 and a message beginning 'xt error'".into() });
+    } else {
+        acc.count("dev_full_status_1_with_message");
+    }
+}
+
 pub fn cases(ctx: &Ctx) -> Vec<Case> {
     let mut v = vec![];
     let layouts: &[&'static str] = &["one_file", "stdin", "many_files"];
@@ -434,15 +458,20 @@ pub fn run(ctx: &Ctx) -> i32 {
         judge_devfull_alignment(src, to, pad, acc);
     });
     acc.merge(a_acc);
+    for name in ["empty", "empty.toml"] {
+        for to in ALL {
+            judge_devfull_empty_file(name, to, &mut acc);
+        }
+    }
     // TOML takes one input only; the other three targets get the late-input layout
     for to in [Fmt::Json, Fmt::Msgpack, Fmt::Yaml] {
         for (k, first) in [(0usize, 300usize), (4, 300), (4, 20_000), (100, 9_000), (1, 40_000)] {
             judge_late_small_input(to, k, first, &mut acc);
         }
     }
-    let rule = format!("{} closing-pipe runs: the consumer takes exactly k bytes for k in {:?} and closes while more than 1 MiB of output remains, x 4 targets x input layouts (one 3 MiB file, 3 MiB on stdin, ten 400 KiB files so that the failure is also met in the per-input flush), single-table and multi-document inputs, JSON input named explicitly for every case plus (quick) one rotating or (thorough) every other choice of source format JSON/YAML/MessagePack/TOML, named or detected; a matrix source x named/detected x target x small/40 KiB input in which the consumer is gone before stdin delivers anything (failure met in the final flush for small outputs) and the same matrix with stdout on /dev/full (stdin and file); /dev/full runs whose output is a long run of one-byte values and separators shifted by 0..5 (thorough: 0..63) bytes, so that the first failing write lands on every kind of token; plus 16 runs with stdout on /dev/full (outputs below and above the 8 KiB buffer) and 15 runs in which the consumer leaves after the first input's output and a second, small input arrives only afterwards (failure met in the per-input flush); distinct non-trivial = distinct (target, k, layout) cases", cs.len(), KS);
+    let rule = format!("{} closing-pipe runs: the consumer takes exactly k bytes for k in {:?} and closes while more than 1 MiB of output remains, x 4 targets x input layouts (one 3 MiB file, 3 MiB on stdin, ten 400 KiB files so that the failure is also met in the per-input flush), single-table and multi-document inputs, JSON input named explicitly for every case plus (quick) one rotating or (thorough) every other choice of source format JSON/YAML/MessagePack/TOML, named or detected; a matrix source x named/detected x target x small/40 KiB input in which the consumer is gone before stdin delivers anything (failure met in the final flush for small outputs) and the same matrix with stdout on /dev/full (stdin and file); /dev/full runs whose output is a long run of one-byte values and separators shifted by 0..5 (thorough: 0..63) bytes, so that the first failing write lands on every kind of token; a zero-length file (one empty TOML table) on /dev/full; plus 16 runs with stdout on /dev/full (outputs below and above the 8 KiB buffer) and 15 runs in which the consumer leaves after the first input's output and a second, small input arrives only afterwards (failure met in the per-input flush); distinct non-trivial = distinct (target, k, layout) cases", cs.len(), KS);
     ev::finish(
-        Finish { ctx, level: "fault_enumeration", rule, assumptions: vec!["the kernel's pipe semantics: a write to a pipe whose read end is closed fails with EPIPE".into(), "a run in which the consumer could not obtain k bytes is inconclusive, not a violation".into(), "an 'exit 0 although the consumer had left' observation is confirmed by one more run during which no other process is spawned (a concurrently spawned child briefly holds a copy of the read end)".into()], extra: serde_json::Map::new(), exhaustive: false, min_distinct: 40, must_reach: vec![("killed_by_sigpipe_silently".into(), 40), ("dev_full_runs".into(), 16), ("dev_full_status_1_with_message".into(), 100), ("consumer_gone_first_runs".into(), 100), ("dev_full_alignment_runs".into(), 50), ("source_yaml_detected".into(), 3), ("source_msgpack".into(), 3), ("late_small_input_runs".into(), 15), ("layout_many_files".into(), 5), ("layout_stdin".into(), 5)] },
+        Finish { ctx, level: "fault_enumeration", rule, assumptions: vec!["the kernel's pipe semantics: a write to a pipe whose read end is closed fails with EPIPE".into(), "a run in which the consumer could not obtain k bytes is inconclusive, not a violation".into(), "an 'exit 0 although the consumer had left' observation is confirmed by one more run during which no other process is spawned (a concurrently spawned child briefly holds a copy of the read end)".into()], extra: serde_json::Map::new(), exhaustive: false, min_distinct: 40, must_reach: vec![("killed_by_sigpipe_silently".into(), 40), ("dev_full_runs".into(), 16), ("dev_full_status_1_with_message".into(), 100), ("consumer_gone_first_runs".into(), 100), ("dev_full_alignment_runs".into(), 50), ("dev_full_zero_length_file_runs".into(), 6), ("source_yaml_detected".into(), 3), ("source_msgpack".into(), 3), ("late_small_input_runs".into(), 15), ("layout_many_files".into(), 5), ("layout_stdin".into(), 5)] },
         acc,
     )
 }
@@ -451,7 +480,9 @@ pub fn replay(v: &Value) -> i32 {
     let c = &v["case"];
     let mut acc = Acc::default();
     let Some(to) = c["to"].as_str().and_then(Fmt::parse) else { return 2 };
-    if c["devfull_alignment"].as_bool() == Some(true) {
+    if c["devfull_empty_file"].as_bool() == Some(true) {
+        judge_devfull_empty_file(if c["name"].as_str() == Some("empty.toml") { "empty.toml" } else { "empty" }, to, &mut acc);
+    } else if c["devfull_alignment"].as_bool() == Some(true) {
         let Some(src) = c["source"].as_str().and_then(Fmt::parse) else { return 2 };
         judge_devfull_alignment(src, to, c["pad"].as_u64().unwrap_or(0) as usize, &mut acc);
     } else if c["consumer_gone_first"].as_bool() == Some(true) || c["devfull_matrix"].as_bool() == Some(true) {
